@@ -101,3 +101,6 @@ pub fn clear_interrupt_flag() -> bool {
 }
 
 pub use crate::machine::verif_machine::Footprint;
+
+// the in-process harness for chunked reads drives the character reader directly
+pub use crate::parser::char_reader::{BadUtf8Error, CharRead, CharReader};
